@@ -276,13 +276,14 @@ impl RuntimeData {
     }
 
     pub fn set_memory_limit(&mut self, capacity: usize) {
-        self.clear();
         unsafe {
             self.memory
                 .get_inner()
                 .limit
                 .store(capacity, std::sync::atomic::Ordering::Relaxed);
         }
+        // clear after the limit is in place: the collection threshold is derived from it
+        self.clear();
     }
 
     /// Types implementing Drop are not supported, thus the `Copy` bound
